@@ -1,9 +1,9 @@
-import Pm.RedfishOne
-import Pm.RedfishSpec
+import Pm.RedfishSeq
 /-! helper lemmas for C19 (redfishpower `--test-mode`): the pieces live in
     `RedfishTree` (forests), `RedfishPW` (`process_waiters` by filters), `RedfishSt` (plug states, `processOne` by case),
     `RedfishTerm` + `RedfishSetup` (termination), `RedfishLines` + `RedfishOne` (one line per target),
-    `RedfishSpec` (the documented rules). -/
+    `RedfishSpec` (the documented rules), `RedfishClosed` (`specPower` in closed form), `RedfishStat` (stat refinement),
+    `RedfishPower` + `RedfishRefine` (on/off refinement), `RedfishSeq` (all commands, sequences). -/
 namespace Pm.Redfish
 
 /-- no plug is its own ancestor in a well-formed configuration -/
@@ -29,21 +29,3 @@ theorem finalM_empty {c : Cfg} (hw : WF c = true) (st : St) (cmd : Cmd) (ts : Li
 
 end Pm.Redfish
 
-open Pm.Redfish in
-#print axioms runCmd_done
-open Pm.Redfish in
-#print axioms finalM_empty
-open Pm.Redfish in
-#print axioms runCmd_keys
-open Pm.Redfish in
-#print axioms runCmd_plugs
-open Pm.Redfish in
-#print axioms runCmd_unknowns
-open Pm.Redfish in
-#print axioms specPower_single
-open Pm.Redfish in
-#print axioms specPower_off_parent
-open Pm.Redfish in
-#print axioms specPower_phased
-open Pm.Redfish in
-#print axioms specStat_blocked
